@@ -20,7 +20,7 @@ from common import Evidence, Verdicts, run_tlc, stage_spec, MachineryError
 
 PROP = "C09"
 BODIES = {"seven": "{7}", "inc": "{x+1}", "neg": "{-x}", "cnt": "{#x}", "enl": "{,x}", "sub": "{x-y}", "right": "{y}", "pair": "{x,y}",
-          "negy": "{x+-y}", "sum3": "{x+y+z}", "third": "{z}", "xz": "{x*z}"}
+          "negy": "{x+-y}", "viapy": "{pf(x)}", "sum3": "{x+y+z}", "third": "{z}", "xz": "{x*z}"}
 ARGT = ["1", "2", "3", "[1 2]", "'ab'"]        # 'ab' stands for the string "ab" (no double quotes inside TLC constants)
 
 
@@ -56,6 +56,19 @@ class Callable:
 
     def __init__(self, k, log):
         self.k, self.log, self.count = k, log, {}
+
+    def make_pf(self):
+        """callable 9: pf(x) raises KeyError for x = 3 (a dictionary miss inside a handler), else returns 9000 + invocation count"""
+        self.count[9] = 0
+        outer = self
+
+        def pf(x):
+            outer.count[9] += 1
+            outer.log.append({"id": 9, "args": [txt(x)], "klok": True})
+            if int(x) == 3:
+                raise KeyError("callable #9 fails (scripted)")
+            return 9000 + outer.count[9]
+        return pf
 
     def make(self, cid, ar, kl, rz=False):
         self.count[cid] = 0
@@ -97,6 +110,7 @@ def execute(hist):
     k = KlongInterpreter()
     log = []
     fac = Callable(k, log)
+    k["pf"] = fac.make_pf()
     wraps = {}
     events, shown = [], []
     for e in hist:
@@ -135,14 +149,21 @@ def execute(hist):
                 ev["log"] = list(log)
             elif op == "callwrap":
                 shown[-1] = f"{e['w']}({', '.join(str(a) for a in e['args'])})"
+                del log[:]
                 try:
                     ev["res"] = txt(wraps[e["w"]](*e["args"]))
                 except RuntimeError as ex:
                     ev["res"] = "rejected" if "expected" in str(ex) else "raised:RuntimeError"
+                finally:
+                    ev["log"] = list(log)
             elif op == "callkg":
                 src = f"{e['n']}({';'.join(str(a) for a in e['args'])})"
                 shown[-1] = src
-                ev["res"] = txt(k(src))
+                del log[:]
+                try:
+                    ev["res"] = txt(k(src))
+                finally:
+                    ev["log"] = list(log)
         except BaseException as ex:   # noqa
             err = f"raised:{type(ex).__name__}: {str(ex)[:60]}"
             if op == "readdata":
@@ -151,8 +172,8 @@ def execute(hist):
                 ev["res"] = err
                 if op == "callpy":
                     ev["log"] = list(log)
-                    if "fails (scripted)" in str(ex):
-                        ev["res"] = "raised"
+                if "fails (scripted)" in str(ex):
+                    ev["res"] = "raised"
             else:
                 ev["op"] = "failed-" + op        # the monitor ignores it; reported by the harness
                 ev["error"] = err
@@ -169,12 +190,12 @@ def run(tier, seed):
     d = stage_spec("py/PyAbs.tla", "py/PyGen.tla", "py/PyTrace.tla")
     mod = os.path.join(d, "PyGen.tla")
 
-    def cfg(name, names, argt, maxops, maxid=2, theme="all"):
+    def cfg(name, names, argt, maxops, maxid=2, theme="all", ints=(1, 2, 3)):
         p = os.path.join(d, name)
         q = lambda xs: "{" + ", ".join(json.dumps(x) for x in xs) + "}"   # noqa
         with open(p, "w") as f:
-            f.write("INIT Init\nNEXT Next\nCONSTANTS\n  Names = %s\n  Slots = {\"w1\"}\n  MaxId = %d\n  MaxOps = %d\n  ArgT = %s\n  Theme = \"%s\"\n"
-                    "INVARIANT Good\nINVARIANT Emit\nCHECK_DEADLOCK FALSE\n" % (q(names), maxid, maxops, q(argt), theme))
+            f.write("INIT Init\nNEXT Next\nCONSTANTS\n  Names = %s\n  Slots = {\"w1\"}\n  MaxId = %d\n  MaxOps = %d\n  ArgT = %s\n  Theme = \"%s\"\n  IntArgs = {%s}\n"
+                    "INVARIANT Good\nINVARIANT Emit\nCHECK_DEADLOCK FALSE\n" % (q(names), maxid, maxops, q(argt), theme, ", ".join(str(i) for i in ints)))
         return p
     depth = 3 if not thorough else 4
     r1 = run_tlc(mod, cfg("tree.cfg", ["f"], ["1", "'ab'"] if not thorough else ["1"], depth), workers=1, timeout=7200)
@@ -185,6 +206,12 @@ def run(tier, seed):
     tree = [p for p in r1.prints if isinstance(p, list)]
     rnd.shuffle(tree)
     hists = tree[:(12000 if not thorough else 60000)]
+    # every history of 3 operations on Klong functions and their handles (13 bodies, handle calls with 0..3 arguments from {1, 3})
+    rk = run_tlc(mod, cfg("tree_kg.cfg", ["f"], ["1"], 3, theme="kg", ints=(1, 3)), workers=1, timeout=7200)
+    ev.add_tlc("PyGen.tla theme kg: all histories of 3 operations (define / redefine / delete / handle / call), all replayed", rk)
+    if rk.violated:
+        vd.violation({"what": f"design-level: PyGen.tla violates {rk.violated}", "counterexample": rk.cex[:4000]})
+    hists += [p for p in rk.prints if isinstance(p, list)]
     nsim = 3000 if not thorough else 30000
     r2 = run_tlc(mod, cfg("sim.cfg", ["f", "g"], ARGT, 8, maxid=4), workers=1, simulate=f"num={nsim // 3}", depth=9, seed=seed + 3, timeout=7200)
     ev.add_tlc(f"PyGen.tla -simulate num={nsim // 3}: histories of 8 operations on two names ({nsim} of the emitted histories replayed)", r2)
@@ -258,7 +285,7 @@ def run(tier, seed):
     ev.cov["forms_covered"] = sorted({e.get("form") for t in traces for e in t["events"] if e.get("form")})
     ev.cov["bodies_covered"] = sorted({e.get("body") for t in traces for e in t["events"] if e.get("body")})
     ev.cov["rule"] = (f"all histories of {depth} operations on one name (exhaustive tree of PyGen.tla) and seeded -simulate histories of 8 "
-                      f"operations on two names: 8 signature shapes (arity 0..3, with/without klong), 8 call forms, 12 Klong bodies of "
+                      f"operations on two names: 8 signature shapes (arity 0..3, with/without klong), 8 call forms, 13 Klong bodies of "
                       f"arity 0..3 (incl. parameters used only under a monadic operator / not all mentioned), handle calls with 0..3 "
                       f"arguments, redefinition and deletion; non-trivial = contains an application")
     ev.sample({"history": meta[0][1]})
